@@ -391,6 +391,19 @@ class Rewriter:
             depth = 0
             while k >= 0:
                 ch = m[k]
+                if ch == "}" and depth == 0:
+                    # the block body of the previous arm (`Q => { .. }` needs no comma) ends the pattern
+                    d2, q = 0, k
+                    while q >= 0:
+                        if m[q] == "}":
+                            d2 += 1
+                        elif m[q] == "{":
+                            d2 -= 1
+                            if d2 == 0:
+                                break
+                        q -= 1
+                    if q >= 0 and m[:q].rstrip().endswith("=>"):
+                        break
                 if ch in ")]}":
                     depth += 1
                 elif ch in "([{":
@@ -431,10 +444,42 @@ class Rewriter:
                 a_end = j2
                 while m[j2].isspace() or m[j2] == ",":
                     j2 += 1
-            # next arm must be the final `_ => B`
+            # next arm must be the final `_ => B` ...
             mm2 = re.match(r"_\s*=>\s*", m[j2:])
             if not mm2:
-                continue
+                # ... or an arm with the same pattern up to the name it binds:
+                # `Some(a) if G => A, Some(b) => B`  ->  `Some(a) => if G { A } else { let b = a; B }`
+                mm3 = re.match(r"([^=]+?)\s*=>\s*", m[j2:])
+                if not mm3:
+                    continue
+                pat2 = self.text[j2:j2 + mm3.end(1)].strip()
+                t1 = re.findall(r"[A-Za-z_][A-Za-z_0-9]*|\S", pat)
+                t2 = re.findall(r"[A-Za-z_][A-Za-z_0-9]*|\S", pat2)
+                diff = [(x, y) for x, y in zip(t1, t2) if x != y]
+                if len(t1) != len(t2) or len(diff) != 1 or not all(re.match(r"^[a-z_][a-z_0-9]*$", z) for z in diff[0]):
+                    continue
+                b_start = j2 + mm3.end()
+                if m[b_start] == "{":
+                    b_end = match_close(m, b_start) + 1
+                else:
+                    depth = 0
+                    b_end = b_start
+                    while True:
+                        ch = m[b_end]
+                        if ch in "([{":
+                            depth += 1
+                        elif ch in ")]}":
+                            if depth == 0:
+                                break
+                            depth -= 1
+                        elif ch == "," and depth == 0:
+                            break
+                        b_end += 1
+                body_b = self.text[b_start:b_end].strip()
+                new_arm = "%s => if %s { %s } else { let %s = %s; %s }" % (pat, guard, body_a, diff[0][1], diff[0][0], body_b)
+                self.text = self.text[:k + 1] + "\n" + new_arm + self.text[b_end:]
+                n += 1
+                break
             b_start = j2 + mm2.end()
             if m[b_start] == "{":
                 b_end = match_close(m, b_start) + 1
@@ -465,6 +510,31 @@ class Rewriter:
             break  # one per call (positions shifted)
         self.hit("R10", n)
         return n
+
+    # R11 -----------------------------------------------------------------
+    def hoist_closure(self, anchor, call):
+        """`ANCHOR { || { BODY } }()` (a closure that is invoked on the spot, used by the code to run
+        cleanup after `?`) -> `ANCHOR CALL`; returns `{ BODY }` so that it can be emitted as a method.
+        `?` and `return` inside BODY leave the closure in the original and the method here."""
+        idxs = [mm.start() for mm in re.finditer(re.escape(anchor), self.text)]
+        if len(idxs) != 1:
+            raise ExtractError("%s: R11 anchor %r found %d times" % (self.label, anchor, len(idxs)))
+        m = mask(self.text)
+        p = idxs[0] + len(anchor)
+        mm = re.match(r"\s*\{\s*\|\|\s*\{", m[p:])
+        if not mm:
+            raise ExtractError("%s: R11: no `{ || { .. } }()` after %r" % (self.label, anchor))
+        outer_open = p + m[p:].index("{")
+        inner_open = p + mm.end() - 1
+        inner_close = match_close(m, inner_open)
+        outer_close = match_close(m, outer_open)
+        tail = re.match(r"\s*\(\s*\)", m[outer_close + 1:])
+        if m[inner_close + 1:outer_close].strip() or not tail:
+            raise ExtractError("%s: R11: closure at %r is not invoked on the spot" % (self.label, anchor))
+        body = self.text[inner_open:inner_close + 1]
+        self.text = self.text[:outer_open] + call + self.text[outer_close + 1 + tail.end():]
+        self.hit("R11")
+        return body
 
     @staticmethod
     def _block_open(m, start):
